@@ -65,6 +65,16 @@ def derive_pattern(rng, name, star, one):
     return "".join(s)
 
 
+def systematic(name, star, one):
+    """Boundary enumeration of wildcard positions for one name: leading / trailing / both / combined."""
+    n = len(name)
+    k = max(1, n // 2)
+    out = [star + name[k:], name[:k] + star, star + name[1:-1] + one if n >= 2 else star + one, one + name[1:], name[:-1] + one,
+           star + name[1:k] + one + name[k + 1:] if n > k + 1 else star + one, star + one, one + star, star + name + star, one * n, one * (n + 1), star + name[-1:],
+           name[:1] + star + name[-1:], star + name[k:].swapcase(), name[:k].swapcase() + star + one if n > k else name + one]
+    return [p for p in out if p]
+
+
 def rust_escape(s):
     return "".join("\\" + c if c in r"\.+*?()|[]{}^$#&-~" else c for c in s)
 
@@ -130,6 +140,14 @@ def run(ctx):
     # patterns
     pats = []
     seen = set()
+    # a systematic family first (wildcards at every kind of position), then random derivations
+    for base in rng.sample(names, min(len(names), 6 if ctx.tier == "quick" else 40)):
+        for kind, st_, on_ in (("glob", "*", "?"), ("like", "%", "_")):
+            for p in systematic(base, st_, on_):
+                if (kind, p) not in seen and qlib.quote(p) is not None and "\n" not in p and all(ord(c) < 128 for c in p):
+                    seen.add((kind, p))
+                    pats.append((kind, p))
+    npat += len(pats)
     while len(pats) < npat:
         base = rng.choice(names)
         kind = rng.choice(["glob", "glob", "like", "like", "rx", "exact"])
